@@ -25,6 +25,9 @@ RETURN_OPS = frozenset(op for name, op in opcode.opmap.items() if name.startswit
 YIELD_OP = opcode.opmap["YIELD_VALUE"]
 
 
+AT_OP, AT_YIELD, AT_RETURN, AT_RAISE = 0, 1, 2, 3  # indices into CodeView.co_code (values of a model frame's f_lasti)
+
+
 def classify_exit(op, is_coroutine) -> str:
     """The environment contract's reading of a 'return' profile event."""
     if op == YIELD_OP:
@@ -36,12 +39,14 @@ def classify_exit(op, is_coroutine) -> str:
 
 
 class CodeView:
-    """Forwards to a real code object but exposes a one-instruction `co_code` whose opcode is
-    chosen by the harness (symbolic), and harness-chosen generator/coroutine flags."""
+    """Forwards to a real code object but exposes a four-instruction `co_code` -- (an opcode chosen by the harness, possibly
+    symbolic; YIELD_VALUE; a RETURN_* opcode; an opcode that is neither) -- and harness-chosen generator/coroutine flags.
+    Like a real code object it is IMMUTABLE once created (a tracer may cache anything derived from it): the frame's `f_lasti`
+    (AT_OP / AT_YIELD / AT_RETURN / AT_RAISE) says which instruction was executed last."""
 
     def __init__(self, real, op=0, flags=None, name=None):
         self._real = real
-        self.co_code = [op]
+        self.co_code = (op, YIELD_OP, sorted(RETURN_OPS)[0], 0)
         self.co_flags = real.co_flags if flags is None else flags
         self.co_name = real.co_name if name is None else name
         self.co_varnames = real.co_varnames
